@@ -49,16 +49,19 @@ func SwitchTable(w *World, repo string, s Switches, rng *rand.Rand, tag string) 
 	m := w.Repos[repo]
 	u := w.U
 	var tagged, anyMan, plainBlob string
+	// deterministic choices (map iteration order must not influence what a seed explores)
 	for t := range m.Tags {
-		tagged = t
-		break
+		if tagged == "" || t < tagged {
+			tagged = t
+		}
 	}
 	for d := range m.Mans {
-		anyMan = d
-		break
+		if anyMan == "" || d < anyMan {
+			anyMan = d
+		}
 	}
 	for d := range m.Stored {
-		if m.Mans[d] == nil && u.ByD[d] == nil {
+		if m.Mans[d] == nil && u.ByD[d] == nil && (plainBlob == "" || d < plainBlob) {
 			plainBlob = d
 		}
 	}
